@@ -282,7 +282,7 @@ func (n *NXRange) ToUint32Mask() uint32 {
 	start := n.start
 	maxLength := 32
 	var end int
-	if n.end != 0 {
+	if n.end != 0 || n.start == 0 {
 		end = n.end
 	} else {
 		end = maxLength
